@@ -43,6 +43,27 @@ CHECKS = {
             "so release (wrapping) and debug semantics cannot differ; the only permitted panic (index>=K) is proved to be explicit and unconditional."),
 }
 
+ACC_NOTE = ("BOUNDED stand-in, not a proof: parse_field / check_explicit_exhaustive consume syn trees and are out of reach of Verus (syn, quote!, iterator adapters, "
+            "str slicing) and of Kani (ICE when syn::parse_str is reachable). The deciding step is the real rustc + real macro on a stated finite enumeration of declarations, "
+            "compared with the rule as worded in the property; accepted declarations are additionally proved exact/total by Kani (proof per accepted program). "
+            "Trusted: rustc diagnostics mapping, the rule oracle in vlib/model.py / vlib/acc.py.")
+INV_NOTE = ("BOUNDED stand-in over the corpus: the inventory is syntactic (annotator parse of the real expansion) and 'does not compile' is decided by rustc, not by a verifier; "
+            "only the frame half (read-only bits unchanged, builder value) is a Kani proof.")
+CHECKS.update({
+    "C09": ("translation_validation", "4.5, 5 C09", "bounded accept/reject enumeration (rustc + real macro vs rule oracle) + Kani contracts on accepted declarations",
+            "Every declaration of a stated enumeration (quick ~1500, thorough ~3900 single-field declarations: bases, boundary bit positions, type widths n-1/n/n+1, arrays K x stride, range lists incl. reversed bounds) "
+            "is compiled with the real macro and its verdict compared with the rule of C09 in both directions; accepted declarations go through unit X (sampled in quick), and an accepted rule-invalid declaration "
+            "is additionally reported with the X obligation it breaks and a replayed concrete input.", ACC_NOTE),
+    "C10": ("translation_validation", "4.5, 5 C10", "bounded accept/reject enumeration (rustc + real macro vs rule oracle) + Kani totality proofs on accepted enums",
+            "Every bitenum declaration of a stated enumeration (N in 1..3(4) x variant count 1..2^N+1 x discriminant sets x exhaustive in true/false/conditional/omitted x cfg-gated variants (also after a doc comment); storage classes 0..128) "
+            "is compiled with the real macro and compared with the rule of C10; every accepted enum's conversions are proved total and exact for all raw values by Kani.", ACC_NOTE),
+    "C14": ("translation_validation", "4.5, 5 C14", "API inventory of the real expansion vs rule oracle + must/must-not-compile type-state programs (rustc)",
+            "For 30+ layouts (complete/incomplete, with/without default, overlapping fields, overlapping array elements, self-overlapping range lists, read-only gaps, arbitrary bases) the parsed real expansion must contain builder() exactly when the rule allows it, "
+            "the exact Partial<mask> chain with build() only on the final mask; the complete chain must compile in const context and every proper prefix, every chain with a step left out and swapped steps must not.", INV_NOTE),
+    "C17": ("translation_validation", "4.5, 5 C17", "API inventory of the real expansion vs access specifiers + must/must-not-compile programs + Kani frame contracts",
+            "For every field kind x access in r/w/rw/none the parsed real expansion must contain exactly the granted functions with the declared signatures (getter, with_, set_, builder step) and none of the withheld ones; "
+            "use of a granted accessor must compile, use of a withheld one must not; that read-only bits cannot change is the put_spec frame of every mutator, proved by Kani.", INV_NOTE),
+})
 NOT_YET = {}
 
 
